@@ -106,7 +106,7 @@ def theorem_names(module):
     src = strip_comments(p.read_text())
     ns = None
     names = []
-    for m in re.finditer(r"^\s*(?:namespace\s+(\S+)|(?:private\s+|protected\s+)?theorem\s+(\S+)|(c\d\d)_class\s+(\S+))", src, re.M):
+    for m in re.finditer(r"^\s*(?:namespace\s+(\S+)|(?:private\s+|protected\s+)?theorem\s+(\S+)|(c\d\d(?:_[a-z0-9]+)*)_class\s+(\S+))", src, re.M):
         if m.group(1):
             ns = m.group(1)
         elif m.group(2):
